@@ -22,6 +22,9 @@ func newOut() *Out { return &Out{w: bufio.NewWriterSize(os.Stdout, 1<<20)} }
 func (o *Out) Case(input, impl string) {
 	fmt.Fprintf(o.w, "%s | %s\n", input, impl)
 	o.n++
+	if o.n%512 == 0 { // a crash of the process in another goroutine loses at most the last lines
+		o.w.Flush()
+	}
 }
 func (o *Out) Comment(s string) { fmt.Fprintf(o.w, "# %s\n", s) }
 func (o *Out) Flush()           { o.w.Flush() }
